@@ -13,12 +13,12 @@ CHECKS = {
     "C19": {
         "binaries": ["forwarder"],
         "runs": [
-            R(LAB, "^TestC19Secrets", {"checks": 45, "timeout": 900}, {"checks": 400, "shards": 8, "timeout": 3000}),
+            R(LAB, "^TestC19Secrets", {"checks": 70, "timeout": 900}, {"checks": 400, "shards": 8, "timeout": 3000}),
         ],
     },
     "C20": {
         "runs": [
-            R(LAB, "^TestC20Limits", {"checks": 36, "timeout": 900}, {"checks": 300, "shards": 4, "timeout": 3000}),
+            R(LAB, "^TestC20Limits", {"checks": 50, "timeout": 900}, {"checks": 300, "shards": 4, "timeout": 3000}),
         ],
     },
     "C15": {
@@ -34,7 +34,7 @@ CHECKS = {
     },
     "C09": {
         "runs": [
-            R(H2, "^TestC09Flow", {"checks": 400, "timeout": 900}, {"checks": 8000, "shards": 16, "timeout": 3000}, race=True),
+            R(H2, "^TestC09Flow", {"checks": 1500, "timeout": 900}, {"checks": 8000, "shards": 16, "timeout": 3000}, race=True),
         ],
     },
     "C10": {
@@ -242,6 +242,9 @@ _MORE = {
     "C17": "Further dimensions: (Delivery, package bind) lists of 1-4 rules built from atoms with commas ({m,n}, classes), quotes, blanks, backslashes, YAML- and JSON-significant characters and leading dashes reach deny-/direct-/mitm-domains as repeated flags, one CSV flag, an environment variable, a YAML or a JSON config file, and must arrive as written: same rules, order and exclusion marks. (Concurrent) one matcher and its inverse asked by 8 goroutines at once, each going over the hosts in an order of its own for 40 rounds, then a sequential pass; every verdict against the per-rule reference (race detector on in the thorough tier). (Binary, real binary) --deny-domains lists of 0-3 include and 0-2 exclusion rules in any order and requests for 3-6 hosts: 403 exactly when an include rule matches and no exclusion does; a list of exclusions only is refused at start-up.",
     "C20": "Further dimensions: limits below one I/O call of the proxy (2/8/24/100 KiB/s) observed for a 1.2 s window, PROXY-protocol and TLS listeners, instances with 1.2 s server read/write time-outs and transfers that cannot finish in time (the transfer may be cut, what passed obeys the limit). Cases with both limits at 1 MiB/s and the same volume moving in the opposite direction meanwhile: the measured direction finishes within ExtraMs + 2.5 s (three attempts). A case may tell the proxy to shut down gracefully 60-300 ms after the start (drain time 20 s): the transfers under way continue and stay subject to the limits. The volume may be downloaded as responses of 8-60 KiB, each on a connection of its own, 2 or 8 at a time (slack only for the connections open at a time). In a tunnel-upload the origin may shut down its sending side as soon as it has the request head: the upload stays limited.",
 }
+_MORE11 = {'C02': 'Run TestC02EarlyReply: an origin that answers on the request head alone (200/401/413/302) while the client is still uploading 64 KiB - 32 MiB (Content-Length or chunked; the upload is made of lines that read like requests), then closes or reads on; 1-3 follow-up requests on the same connection: each response answers its own request or the connection ends without a message, and nothing of the upload reaches the origin as a request.', 'C04': 'A case may open with a crowd: 2-8 clients presenting the configured credentials and as many presenting wrong ones of the same length (password or user differing in one octet), 25 requests each at the same time; every one is decided on its own credentials. One deny list names this machine (127.0.0.x, localhost, ::1): the list decides for every host whatever --proxy-localhost says.', 'C07': 'A case may churn the cache: 32 sessions for 32 different hosts at the same moment against a cache of one or two leaves, three rounds.', 'C09': "Server-ends-first schedules: the server answers and ends its side of a stream while the client is still uploading; the client's further DATA stays within the window the server granted and never enlarges.", 'C10': 'The client side may be a TCP connection that shuts down its sending side at the end and goes on reading: what the server sends afterwards still arrives.', 'C11': "A connection that had exchanged nothing before shutdown may be parked (registration racing with Shutdown) until the drain ends; with a drain without limit it is judged then: closed by the proxy, never answered. Run TestC11Reaped (tunnel grace period shortened to 0.5 s through the laboratory's hook): 1-4 CONNECT / Upgrade tunnels whose origin has said everything and closed and whose client stays silent (or closes: control); shutdown 0-1.2 s after the origin finished, i.e. before or after the forced close is due: it succeeds once the tunnels are reaped - not at its own deadline -, every accepted socket is closed, the gauge returns to zero.", 'C12': 'Hostile streams also go to the PROXY-protocol listener: after a proper v1 line, or as a version-2 header with a declared length anywhere from 0 to 65535 (around 12, 36, 216, 232, 256, 536, ...), any version/command and family octet, address block and TLVs filled with one octet value, complete or cut short, a request behind it; FuzzC12Hostile has the listener and such a header in its corpus.', 'C14': 'Run TestC14Idle: eight histories side by side, each 2-4 evaluations of one script on one resolver or the pool, some of which throw (exception, reference to something undefined), with pauses of 0-6.5 s between them: what an evaluation returns does not depend on what was asked before nor on how long ago.', 'C17': '(Binary) the generated list may name this machine (^127\\., (?i)^localhost$, an exclusion for 127.0.0.9) and the hosts asked include 127.0.0.1, 127.0.0.9, localhost, LOCALHOST, with --proxy-localhost absent / deny (local hosts refused anyway) / allow / direct (the list alone decides).', 'C19': 'A case may add one more --credentials entry for the target of an existing one (exact host:port, host:*, *:*): every option is well-formed, the binary refuses the list as a whole; stdout, stderr and the log file of that refused start are scanned like any start-up log.'}
+for _k, _v in _MORE11.items():
+    _MORE[_k] = _MORE[_k] + " " + _v if _k in _MORE else _v
 for _k, _v in _MORE.items():
     RULES[_k] = RULES[_k].rstrip() + " " + _v
 
